@@ -69,6 +69,10 @@ inline cocls::generator<int, int> g_body_arg(g_world &W, int src) {
     W.body_ended[src].fetch_add(1, std::memory_order_relaxed);
 }
 
+// waiting loops of the harness poll politely: after a short spin they sleep, so that a consumer blocked forever inside the library
+// leaves every thread in state S and the quiescence watchdog can report the hang within seconds
+inline void g_polite_wait(unsigned &spins) { if (++spins < 4000) vf::cpu_relax(); else usleep(100); }
+
 // ---- consumer: obtains item after item, the access style is chosen per step. The driver is ordinary code (blocking styles are
 // not allowed inside coroutines); the two awaiting styles run as a small coroutine per step.
 template <bool WithArg, typename Gen>
@@ -103,8 +107,9 @@ void g_consume(g_world &W, Gen &g, vf::rng r, bool allow_sync, bool helper_resol
             std::atomic<int> done{0};
             g_async_step<WithArg>(g, style, arg, item, done).detach();
             // suspended on a pending await of the body: completed by the helper thread, or by this (the consumer's) thread
+            unsigned spins = 0;
             while (!done.load(std::memory_order_acquire)) {
-                if (helper_resolves) vf::cpu_relax();
+                if (helper_resolves) g_polite_wait(spins);
                 else if (next_pending < G_NPEND) (*W.pprom[next_pending++])();
                 else { break; }
             }
@@ -142,16 +147,18 @@ void g_consume(g_world &W, Gen &g, vf::rng r, bool allow_sync, bool helper_resol
 inline void g_resolver(g_world &W, uint64_t seed, int tid) {
     for (int k = 0; k < G_NPEND; k++) {
         bool eager = vf::mix(seed, 40 + (uint64_t)k) % 4 == 0; // sometimes resolve before it is awaited (then it is an "await ready")
+        unsigned spins = 0;
         while (!eager && !W.await_started[k].load(std::memory_order_acquire)) {
             if (W.consumer_done.load(std::memory_order_acquire)) return;
-            vf::cpu_relax();
+            g_polite_wait(spins);
         }
         unsigned d = (unsigned)(vf::mix(seed, 70 + (uint64_t)k + (uint64_t)tid * 13) % 300);
         for (unsigned i = 0; i < d; i++) vf::cpu_relax();
         if (W.consumer_done.load(std::memory_order_acquire)) return;
         (*W.pprom[k])();
     }
-    while (!W.consumer_done.load(std::memory_order_acquire)) vf::cpu_relax();
+    unsigned spins2 = 0;
+    while (!W.consumer_done.load(std::memory_order_acquire)) g_polite_wait(spins2);
 }
 
 inline std::vector<g_op> g_random_script(vf::rng &r, int src, bool allow_pending, int &pend_next, bool infinite) {
